@@ -500,15 +500,18 @@ def l5_l6(ck, F, tier):
             for x_ in v:
                 _atoms(x_, out)
     bad_src = []
-    for e in chg + [x for x in fin if x not in chg]:
+    # (the Finished lines may also come after the receive loop: a site outside every loop that is not the per-report terminal line)
+    after_ = [x for x in fps if not any(l[0] in ("while", "loop") for l in x.loops) and x not in chg and x not in fin]
+    file_sites = chg + [x for x in fin if x not in chg] + after_
+    for e in file_sites:
         at_ = []
         _atoms(e.args[0], at_)
-        from_carried = any(a_[0] == "v" and a_[1].split("@")[0].split("#")[0] in names_c and "@loop" in a_[1] for a_ in at_)
+        from_carried = any(a_[0] == "v" and a_[1].split("@")[0].split("#")[0] in names_c and ("@loop" in a_[1] or "@after" in a_[1]) for a_ in at_)
         from_incoming = any(a_[0] == "f" and str(a_[1]).endswith("::recv") for a_ in at_)
         if not from_carried or from_incoming:
             bad_src.append("%s formats %s" % (e.site, repr(e.args[0])[:80]))
-    ck.inst("L6", "file-lines-from-remembered-report", len(chg) + len(fin) >= 2 and not bad_src, wb.span,
+    ck.inst("L6", "file-lines-from-remembered-report", len(chg) >= 1 and len(file_sites) >= 2 and not bad_src, wb.span,
             "the result-file lines (at an Eb/N0 change and at Finished: %d sites) are formatted from the remembered last report%s" % (
-                len(chg) + len([x for x in fin if x not in chg]), (" ; but " + "; ".join(bad_src[:2])) if bad_src else ""))
+                len(file_sites), (" ; but " + "; ".join(bad_src[:2])) if bad_src else ""))
     ck.inst("L6", "one-line-per-ebn0", len(chg) >= 1 and len(fps) >= 3, wb.span,
             "result-file lines are written when the Eb/N0 of the incoming report differs from the previous one and at Finished (%d format_progress sites, %d under an Eb/N0-changed guard)" % (len(fps), len(chg)))
